@@ -15,6 +15,23 @@ class Stop(Exception):
     """First violation of a history: the model may have diverged, stop."""
 
 
+class InjectedFault(Exception):
+    """Raised on purpose by a responder function of the workload."""
+
+
+class InjectedValueError(InjectedFault, ValueError):
+    pass
+
+
+class InjectedKeyError(InjectedFault, KeyError):
+    pass
+
+
+FAULTS = {'Exception': InjectedFault, 'ValueError': InjectedValueError,
+          'KeyError': InjectedKeyError}
+INJECTED_PREFIX = 'vf.c18_hist.Injected'
+
+
 def real_template(t):
     if t is None:
         return None
@@ -39,6 +56,8 @@ class HistoryRunner:
         self.real_fver = {}
         self.real_freed = set()
         self.armed = {}          # holder rid -> op
+        self.fault_plan = {}     # rid -> (set of invocation numbers that raise, exc name)
+        self.inv_no = {}         # rid -> invocations so far
         self.next_rid = 0
         self.log = []            # the history, for witnesses
         self.feat = {'messages': 0, 'expected_inv': 0, 'state_ops': 0,
@@ -64,6 +83,10 @@ class HistoryRunner:
                 'recv_port': rng.choice(self.ports) if rng.random() < 0.2 else None,
                 'template': gen.rand_template(rng),
                 'nparams': rng.choice([4, 4, 4, 4, 2, 1])}
+        if rng.random() < 0.22:
+            # fault sequence: the function raises on its k-th invocation(s)
+            spec['raises'] = [rng.choice([[1], [1], [2], [1, 2], [1, 3], list(range(1, 40))]),
+                              rng.choice(sorted(FAULTS))]
         self.next_rid += 1
         return spec
 
@@ -71,6 +94,8 @@ class HistoryRunner:
         from sc3.base.responders import OscFunc
         from sc3.base.netaddr import NetAddr
         rid = spec['rid']
+        if spec.get('raises'):
+            self.fault_plan[rid] = (set(spec['raises'][0]), spec['raises'][1])
         src = NetAddr(spec['src'][0], spec['src'][1]) if spec['src'] else None
         ctor = OscFunc.matching if spec['kind'] == 'match' else OscFunc
         self.real_fver[rid] = 0
@@ -158,6 +183,11 @@ class HistoryRunner:
                 self.rig.inv.append(('op', rid, op))
             else:
                 self.rig.inv.append(('op-skipped', rid, op))
+        n = self.inv_no[rid] = self.inv_no.get(rid, 0) + 1
+        plan = self.fault_plan.get(rid)
+        if plan is not None and n in plan[0]:
+            self.rig.inv.append(('raised', rid, plan[1]))
+            raise FAULTS[plan[1]](f'injected fault in responder {rid}, invocation {n}')
 
     # ------------------------------------------------------------ reporting
     def violation(self, key, **w):
@@ -195,6 +225,10 @@ class HistoryRunner:
             if obj is None or bool(obj.enabled) == bool(r.enabled):
                 continue
             self.acc.count('enabled_flag_mismatches')
+            if r.spent and obj.enabled:
+                self.violation('C18/one-shot-still-enabled-after-firing', rid=rid,
+                               observed='enabled is True ' + when,
+                               function_raised=rid in self.fault_plan)
             if r.enabled and r.permanent and r.cmdp_since_enable:
                 self.violation('C18/missed-invocation/permanent-freed-by-cmdperiod',
                                rid=rid, observed='enabled is False ' + when)
@@ -244,7 +278,9 @@ class HistoryRunner:
         addr, args, sender, port = self._gen_message()
         msgs = [(None, addr, args)]
         d = osc.enc_msg(addr, *args)
-        if not self.armed and rng.random() < 0.25:
+        faulty_live = any(rid in self.fault_plan for rid, r in self.model.resps.items()
+                          if not r.freed)
+        if not self.armed and not faulty_live and rng.random() < 0.25:
             # bundle: 2-3 messages with distinct content, maybe nested
             tt = rng.choice([1, 1, self._future_tt(), self._future_tt()])
             extra = []
@@ -292,7 +328,13 @@ class HistoryRunner:
             self.violation(f"C18/handle-request-raises/{e['exc']}", res=res.witness())
         if not res.canary_ok:
             self.violation('C18/receiver-dead/after-valid-datagram', res=res.witness())
-        clock_errs = [e for e in res.errs if e['exc']]
+        injected = [e for e in res.inv if e[0] == 'raised']
+        clock_errs = [e for e in res.errs if e['exc']
+                      and not e['exc'].startswith(INJECTED_PREFIX)]
+        if injected:
+            acc.count('injected_callback_faults', len(injected))
+            if not any(e['exc'] and e['exc'].startswith(INJECTED_PREFIX) for e in res.errs):
+                acc.count('injected_faults_not_logged_by_clock')
         if clock_errs:
             e = clock_errs[0]
             site = e['sites'][-1][1] if e['sites'] else e['logger']
@@ -322,6 +364,13 @@ class HistoryRunner:
             if raddr != tuple(res.sender) or rport != res.recv_port:
                 self.violation('C18/wrong-args/sender-or-port', got=[raddr, rport],
                                expected=[res.sender, res.recv_port])
+        if pending and injected and len(msgs) == 1:
+            # the library aborts the dispatch of a message at the first
+            # raising receive function; whether the plain receive hook ran
+            # before it is open (unordered set of receive functions)
+            acc.count('verdict_open/raw-hook-after-raising-callback')
+            order.extend(pending)
+            pending = []
         if pending:
             self.violation('C18/message-not-delivered', missing=_j(pending),
                            res=res.witness())
@@ -370,6 +419,7 @@ class HistoryRunner:
                 touched.add(op[1])
                 if op[0] in ('free', 'disable'):
                     removed_now.add(op[1])
+        raisers = [e[1] for e in entries if e[0] == 'raised']
         counts = {}
         for e in invs:
             counts[e[1]] = counts.get(e[1], 0) + 1
@@ -399,6 +449,13 @@ class HistoryRunner:
                                msg=_j([addr] + args))
             if v == 'either':
                 acc.count('verdict_open/template-beyond-message')
+                continue
+            if v == 'must' and c == 0 and raisers and not any(
+                    q in m.resps and m.order_constrained(rid, q) for q in raisers):
+                # a responder function raised: the library abandons the rest
+                # of this message's dispatch; only responders registered
+                # before the raising one on its path must have run
+                acc.count('verdict_open/after-raising-callback')
                 continue
             if v == 'must' and c == 0:
                 why = self._why_missed(r, removed_now, addr)
